@@ -41,6 +41,23 @@ func streamHt(o opts) {
 				hashes[i] = r.Uint64()
 			}
 		}
+		directed := t%8 == 7
+		if directed {
+			// hashes laid out for the table's actual size: five keys homed at slot 0, three homed at the last three slots,
+			// and a few absent keys homed all over
+			_, _, n, _ := h.Counters()
+			nkeys = 8 + n
+			hashes = make([]uint64, nkeys)
+			for k := 0; k < 5; k++ {
+				hashes[k] = uint64(n * (k + 1))
+			}
+			for j := 0; j < 3; j++ {
+				hashes[5+j] = uint64(n + n - 3 + j)
+			}
+			for k := 8; k < nkeys; k++ {
+				hashes[k] = uint64(7*n + (k - 8))
+			}
+		}
 		ref := map[int]int{}
 		val := 0
 		flagReuse, flagReclaim, flagGrow, flagGap := false, false, false, false
@@ -82,6 +99,36 @@ func streamHt(o opts) {
 			}
 			w.O((&toks{}).I(7, int64(k)).U(hashes[k]), (&toks{}).B(ok).I(obs()...))
 			m.count("remove")
+		}
+		storeKey := func(k int) {
+			val++
+			pv, had := h.Store(k, hashes[k], val)
+			rv, rhad := ref[k]
+			if had != rhad || (had && pv != rv) {
+				htViolate(m, fmt.Sprintf("store(key %d) returned previous (%d,%v), reference (%d,%v)", k, pv, had, rv, rhad), fmt.Sprintf("ht trace %d", t))
+			}
+			ref[k] = val
+			w.O((&toks{}).I(1, int64(k)).U(hashes[k]).I(int64(val)), (&toks{}).B(had).I(int64(pv)).I(obs()...))
+			m.count("store")
+		}
+		if directed {
+			// tombstone saturation: a run of colliding keys, then repeatedly remove the head of the run (a tombstone that
+			// cannot be trimmed) and fill one of the remaining empty slots; a lookup of an absent key must still terminate
+			watch(fmt.Sprintf("ht trace %d (tombstone saturation)", t))
+			for k := 0; k < 5; k++ {
+				storeKey(k)
+			}
+			for j := 0; j < 3; j++ {
+				removeKey(j)
+				storeKey(5 + j)
+				check(fmt.Sprintf("saturation round %d", j))
+			}
+			for k := 8; k < nkeys; k++ {
+				v, ok := h.Lookup(k, hashes[k])
+				w.O((&toks{}).I(2, int64(k)).U(hashes[k]), (&toks{}).B(ok).I(int64(v)))
+			}
+			unwatch()
+			m.count("saturation_traces")
 		}
 		nops := 40 + r.Intn(260)
 		for i := 0; i < nops; i++ {
